@@ -24,7 +24,8 @@ type Man struct {
 	Body []byte
 }
 type Upload struct {
-	Data []byte
+	Data  []byte
+	Short bool // a chunk below the announced minimum was stored: it has to be the last one
 }
 type Repo struct {
 	Blobs     map[string][]byte
@@ -43,6 +44,7 @@ type Features struct {
 	NoHeadDigest     bool            // omit Docker-Content-Digest on manifest HEAD
 	ValidateChildren bool            // reject a manifest whose blobs/child manifests are missing
 	ChunkMin         int             // OCI-Chunk-Min-Length announced on POST
+	ChunkMinStrict   bool            // ... and enforced: a chunk below it must be the last one of the session
 	EmptyRange00     bool            // report an empty session as "Range: 0-0" like docker/distribution
 	CatalogPage      int             // repositories per catalog page when the client does not ask (0 = all)
 	TagHidden        map[string]bool // tags left out of listings AFTER the page was cut (pages may be short or empty yet linked)
@@ -424,6 +426,17 @@ func (r *Registry) upload(req *http.Request, body []byte, repo, id string) *http
 				}
 				return resp(416, h, nil)
 			}
+		}
+		// a registry that announced OCI-Chunk-Min-Length takes a shorter chunk only as the last one of the session
+		if r.F.ChunkMinStrict && r.F.ChunkMin > 0 && u.Short {
+			h := map[string]string{"Location": loc(id)}
+			if rg := rangeHdr(u); rg != "" {
+				h["Range"] = rg
+			}
+			return resp(416, h, nil)
+		}
+		if r.F.ChunkMin > 0 && len(body) < r.F.ChunkMin {
+			u.Short = true
 		}
 		u.Data = append(u.Data, body...)
 		return resp(202, map[string]string{"Location": loc(id), "Range": rangeHdr(u), "Docker-Upload-UUID": id}, nil)
